@@ -155,31 +155,9 @@ Definition piece_trafo (tr : trafo) (p : piece) : piece :=
   mkPiece (pdur p) (trafo_outputs tr (pchans p))
           (fun c t => data_get c (trafo_apply tr (map (fun ic => (ic, pval p ic t)) (pchans p)))).
 
-Definition kept_values (rho : env) (cm : chanmap) (l : list (chan * expr)) : result cdict :=
-  vals <- rmap (fun ce => v <- eval rho (snd ce) ;; Ok (fst ce, v))
-               (flat_map (fun ce => match cm (fst ce) with Some m => [(m, snd ce)] | None => [] end) l) ;;
-  Ok (fold_left (fun acc kv => cupdate (fst kv) (snd kv) acc) vals []).
-
-(* the meaning of `scalar op pulse` / `pulse op scalar`: channel-wise on the kept channels the scalar speaks about;
-   for `scalar - pulse` every kept channel of the pulse is negated first *)
-Definition arith_meaning (rho : env) (cm : chanmap) (pt_is_lhs : bool) (op : sop) (scalar : expr + list (chan * expr))
-           (chans : list chan) : result trafo :=
-  sv <- match scalar with
-        | inl e => v <- eval rho e ;;
-                   Ok (fold_left (fun acc c => match cm c with Some m => cupdate m v acc | None => acc end) chans [])
-        | inr l => kept_values rho cm l
-        end ;;
-  let all_neg := fold_left (fun acc c => match cm c with Some m => cupdate m (-1 # 1) acc | None => acc end) chans [] in
-  match pt_is_lhs, op with
-  | _, SAdd => Ok [TOffset sv]
-  | true, SSub => Ok [TOffset (map (fun kv => (fst kv, - snd kv)) sv)]
-  | false, SSub => Ok [TScale all_neg; TOffset sv]
-  | _, SMul => Ok [TScale sv]
-  | true, SDiv => if existsb (fun kv => Qeq_bool (snd kv) 0) sv then Err EValue
-                  else Ok [TScale (map (fun kv => (fst kv, Qinv (snd kv))) sv)]
-  | false, SDiv => Err EValue
-  end.
-
+(* the meaning of `scalar op pulse` / `pulse op scalar` (channel-wise on the kept channels the scalar speaks about;
+   for `scalar - pulse` every kept channel of the pulse is negated first) and of the values of a parallel-channel
+   node are the plain evaluations `arith_trafo` / `par_values` (Model.v) under the environment *)
 Fixpoint denote (p : pt) (rho : env) (cm : chanmap) : result (list piece) :=
   match p with
   | PAtom a => o <- denote_atom a rho cm ;; Ok (match o with None => nil | Some pc => cons pc nil end)
@@ -208,11 +186,11 @@ Fixpoint denote (p : pt) (rho : env) (cm : chanmap) : result (list piece) :=
   | PMap pm chm body => denote body (env_map rho pm) (cm_compose cm chm)
   | PRev body => pcs <- denote body rho cm ;; Ok (rev (map mirror pcs))
   | PPar body ow =>
-      vals <- kept_values rho cm ow ;;
+      vals <- par_values rho cm ow [] ;;
       pcs <- denote body rho cm ;;
       Ok (map (piece_trafo [TOver vals]) pcs)
   | PArith lhs op scalar body =>
-      tr <- arith_meaning rho cm lhs op scalar (pt_chans body) ;;
+      tr <- arith_trafo rho cm lhs op scalar (pt_chans body) ;;
       pcs <- denote body rho cm ;;
       Ok (map (piece_trafo tr) pcs)
   end.
